@@ -94,6 +94,9 @@ class Contract:
     # homomorphism, so integer identities proved for the unreduced program hold as congruences for the real one);
     # comparisons whose operands went through such a dropped reduction are arbitrary booleans
     self.congruence_mod = g("congruence_mod", None)
+    # replay of methods: python expression building `self` for the real call; it may use the module's names and
+    # self_<field> (values of the model for the declared self_fields)
+    self.replay_self = g("replay_self", None)
     self.pure_fn = g("pure_fn", None)
     # functional contracts: the result as an expression of the parameters (used where no fresh symbol may be
     # introduced: inside comprehensions over symbolic sequences and quantifier bodies)
